@@ -47,7 +47,7 @@ RULE = ("(a) corpus chunks (*.mlir under tests/ and docs/, split on '// -----', 
         "corpus chunk and the parser consumed at least one token. By construction (counted under "
         "excluded_by_construction): string literals the lexer regex cannot match are capped at 14 plain "
         "characters (known exponential regex, its witness is replayed un-capped), integer type widths are capped "
-        "at 7 digits (value ranges of wider types allocate the width in bits per operation: memory-bound), "
+        "at 6 digits (value ranges of wider types allocate the width in bits per operation: memory-bound), "
         "bracket nesting is bounded at 40, the address space of the process at 1 GiB (-> MemoryError).")
 ASSUMPTIONS = [
     "CPU time of the shard process (ITIMER_VIRTUAL / time.process_time) is the measure of 'time'; "
@@ -343,13 +343,14 @@ def cap_unmatched_strings(text):
 
 
 _STRIP = re.compile(r'"(?:[^"\\\n]|\\.)*"?|//[^\n]*')
-_WIDE_INT_TYPE = re.compile(r'(?<![A-Za-wyz0-9_$.])([su]?i)([0-9]{7})[0-9]+(?![0-9])')
+_WIDE_INT_TYPE = re.compile(r'(?<![A-Za-wyz0-9_$.])([su]?i)([0-9]{6})[0-9]+(?![0-9])')
 
 
 def cap_integer_widths(text):
-    """-> (text', n). Integer types wider than 7 digits (iN, siN, uiN with N >= 10^7; MLIR's limit is 2^24)
-    outside string literals and comments are cut to 7 digits: building their value range allocates N bits per
-    big-int operation (known finding; un-interruptible for seconds when N approaches the memory limit)."""
+    """-> (text', n). Integer types wider than 6 digits (iN, siN, uiN with N >= 10^6; MLIR's limit is 2^24)
+    outside string literals and comments are cut to 6 digits: building their value range allocates N bits per
+    big-int operation, so the cost follows the width written in the text (memory-bound: seconds on a loaded
+    machine from 10^7 bits on, un-interruptible when N approaches the memory limit; see out/fixes/C07-16.diff)."""
     out, pos, n = [], 0, 0
     for m in _STRIP.finditer(text):
         seg, k = _WIDE_INT_TYPE.subn(r"\1\2", text[pos:m.start()])
@@ -673,7 +674,7 @@ def judge(h, recipe, raw=False, regression=False):
             text = text2
         text2, ncap = cap_integer_widths(text)
         if ncap:
-            h.exclude("integer_type_width_capped_to_7_digits")
+            h.exclude("integer_type_width_capped_to_6_digits")
             text = text2
         if nesting_depth(text) > MAX_NEST:
             h.exclude("nesting_deeper_than_%d" % MAX_NEST)
